@@ -299,6 +299,8 @@ int main(int argc, char** argv)
             }
             for (auto& plan : plans)
             {
+                if (plan.k >= 5 && variant != 0)
+                    continue; // the deepest plan runs on the first declaration only
                 std::vector<AItem> types;
                 for (auto& v : plan.values)
                     types.push_back({ 'O', v });
@@ -342,8 +344,9 @@ int main(int argc, char** argv)
                                 // dash-leading positionals behind `--`, everything else must parse alike (a case of its own, so
                                 // that a crash is attributed to this entry point)
                                 long vidx = ctx.next;
-                                ctx.each([&] { return chk.describe_vector_entry(D, av, {}); },
-                                         [&](mc::Report& rep) { chk.run_vector_entry(D, av, {}, rep, vidx); });
+                                if (len <= 4)
+                                    ctx.each([&] { return chk.describe_vector_entry(D, av, {}); },
+                                             [&](mc::Report& rep) { chk.run_vector_entry(D, av, {}, rep, vidx); });
                                 // every rendering of an assignment of <= 2 items (first plan) also on a parser that was used before its
                                 // declaration was complete, and on a parser object that held the previous variant's declaration
                                 if (len <= 2 && &plan == &plans[0])
